@@ -244,6 +244,25 @@ private:
 		__builtin_unreachable();
 	}
 
+	// same for a const variant (used by const_apply())
+	template<typename F, size_t Index> requires (Index < sizeof...(T))
+	std::common_type_t<std::invoke_result_t<F, const T&>...>
+	apply_(F functor) const {
+		using value_type = _variant::get<Index, T...>;
+		if(tag_ == Index) {
+			return functor(get<value_type>());
+		} else {
+			return apply_<F, Index + 1>(std::move(functor));
+		}
+	}
+
+	template<typename F, size_t Index> requires (Index == sizeof...(T))
+	std::common_type_t<std::invoke_result_t<F, const T&>...>
+	apply_(F) const {
+		FRG_ASSERT(!"_apply() on variant with illegal tag");
+		__builtin_unreachable();
+	}
+
 	size_t tag_;
 	frg::aligned_union<T...> storage_;
 };
